@@ -54,7 +54,7 @@ IFACES = '''
 '''
 TEMPLATE = r'''
 /*@ func join.@F@With
-  props C09 C20 C11
+  props C09 C20 C11 C08
   theory joins
   requires (and (not (= {srcController} vnil)) (not (= {dstController} vnil)) (not (= {filterFn} vnil)))
   ghost initSet : Bool := false
@@ -75,6 +75,9 @@ TEMPLATE = r'''
   at call(NewMonitor) assert [monitors-the-source-controller-with-that-handler] (= $0 {srcController})
   at call(Close) assert [closes-only-the-clone-it-created] (= $recv {dst})
   at go(@F@With$3) set linked := true
+  at call(Refilter) assert [opt:the-join-is-refiltered-only-by-the-monitor-callbacks-never-before-the-source-is-synced] false
+  at call(@F@With$1) assert [opt:the-source-cache-is-read-only-from-monitor-callbacks-never-before-the-source-is-synced] false
+  at call(dyncall) assert [opt:the-source-cache-is-read-only-from-monitor-callbacks-never-before-the-source-is-synced] false
   at return assert [success-returns-the-clone-with-its-monitor-tied-to-it] (=> (= result1 vnil) (and (= result0 {dst}) linked (not (= result0 vnil))))
   at return assert [failure-returns-nothing] (=> (not (= result1 vnil)) (= result0 vnil))
   ensures (=> (= result1 vnil) (not (= result0 vnil)))
